@@ -20,7 +20,7 @@ ALLOWED_AXIOMS = []
 TRUSTED_BASE = [
     "coqc 8.16.1 kernel (vm_compute used for facts about scraped constants and refutation witnesses; no native_compute)",
     "no axioms: every theorem of coq/C12/Properties.v is 'Closed under the global context'",
-    "translator checks/C12.py:gen (regex scrape of MAX_LOAD_FACTOR, GROW_RATE, INIT_CAPACITY in hashmap.nelua; initial capacity and growth multiplier in vector.nelua/sequence.nelua/stringbuilder.nelua; hash seed in hash.nelua)",
+    "translator checks/C12.py:gen (regex scrape of MAX_LOAD_FACTOR, GROW_RATE, INIT_CAPACITY in hashmap.nelua; initial capacity and growth multiplier in vector.nelua/sequence.nelua/stringbuilder.nelua; hash seed in hash.nelua; step, stop comparison, one-indexing offsets and initial controls of impl_ipairs_next/impl_mipairs_next/ipairs/mipairs in iterators.nelua)",
     "extraction: Require Extraction + ExtrOcamlBasic only; no Extract Constant of our own; Z/nat stay Coq inductives",
     "ocaml/zutil.ml + coq/C12/driver.ml (text <-> extracted values, op decoding), harness/C12/driver.nelua (op decoding, token<->value maps, dumps through the public observers), OCaml 4.13.1, gcc, the Nelua compiler itself (compiles the driver)",
     "modelled rather than verified: lib/*.nelua are mirrored by hand in coq/C12/Model.v, one Gallina function per source function (loops as structural recursion or fuel proved sufficient, including the in-place compaction of hashmap:rehash and memmove element by element, both proved equal to their block specification); memory.zero/set and spancopy are block operations; list nodes live in an arena indexed by allocation order instead of addresses; the tie is the step-by-step correspondence run on every check",
@@ -87,9 +87,9 @@ THEOREM_CLASSES = {
     "C12_hash_coherent_float": "main",
     "C12_hash_coherent_record": "main",
     "C12_hash_coherent_aggregates": "main",
-    "C12_hash_coherent_string_float32": "main",              # clause "equal keys hash alike" for string and float32 keys
+    "C12_hash_coherent_string_float32": "corollary",         # congruences: string == is equality of the bytes, float32 == differs from bit equality only at the two zeros
     "C12_iterators_visit_in_order": "main",                  # clause "iteration order or coverage" for the for-in iterators
-    "C12_iterators_references_alias": "corollary",           # mipairs/mpairs/mnext references (beyond the clauses)
+    "C12_iterators_references_alias": "definitional",        # in the model a reference IS the index / node id; the guarantee about the code is the driver's `r == &v[k]` checks
     "C12_iterators_update_through_references": "corollary",  # whole update loops through mipairs/mpairs references
     "C12_select_returns_suffix": "definitional",             # the model of select is its specification (compile-time selection)
     "C12_hash_byte_loop_total": "corollary",                 # the model's fuel/default are dead code
@@ -121,11 +121,11 @@ KINDS = {1: "vector", 2: "sequence", 3: "list", 4: "hashmap", 5: "hashmap-weakha
 BASEKIND = {10: 1, 11: 2, 12: 4, 13: 3}
 TYPES = {0: "integer", 1: "string", 2: "record", 3: "number"}
 OPN = {
-    1: {1: "push", 2: "pop", 3: "insert", 4: "remove", 5: "removevalue", 6: "removeif", 7: "resize", 8: "reserve", 9: "clear", 10: "copy", 11: "at", 12: "assign", 13: "destroy", 14: "convert", 15: "unpack", 16: "scoped-close", 17: "mnext-walk"},
-    3: {1: "pushfront", 2: "pushback", 3: "popfront", 4: "popback", 5: "insertbefore", 6: "erasevalue", 7: "find", 8: "clear", 9: "empty", 10: "erase(nilptr)", 11: "destroy", 12: "scoped-close", 13: "mnext-walk"},
+    1: {1: "push", 2: "pop", 3: "insert", 4: "remove", 5: "removevalue", 6: "removeif", 7: "resize", 8: "reserve", 9: "clear", 10: "copy", 11: "at", 12: "assign", 13: "destroy", 14: "convert", 15: "unpack", 16: "scoped-close", 17: "mnext-walk", 18: "ipairs-yields", 19: "mipairs-update"},
+    3: {1: "pushfront", 2: "pushback", 3: "popfront", 4: "popback", 5: "insertbefore", 6: "erasevalue", 7: "find", 8: "clear", 9: "empty", 10: "erase(nilptr)", 11: "destroy", 12: "scoped-close", 13: "mnext-walk", 14: "pairs-yields", 15: "mpairs-update"},
     4: {1: "set", 2: "get", 3: "peek", 4: "has", 5: "has_and_get", 6: "remove", 7: "erase", 8: "clear", 9: "reserve", 10: "rehash", 11: "erase-while-iterating", 12: "next(k)", 13: "next()", 14: "probe", 15: "mpairs-update", 16: "next-traversal", 17: "destroy", 18: "mnext-walk"},
     6: {1: "write", 2: "writebyte", 3: "prepare/commit", 4: "rollback", 5: "resize", 6: "clear", 7: "promote", 8: "commit-over", 9: "prepare", 10: "destroy", 11: "write(integer)", 12: "write(boolean)", 13: "write(integer,bytes,boolean)"},
-    7: {1: "at", 2: "sub", 3: "sub-at", 4: "sub-sub"},
+    7: {1: "at", 2: "sub", 3: "sub-at", 4: "sub-sub", 5: "sub-ipairs"},
 }
 OPN[2] = OPN[1]
 OPN[5] = OPN[4]
@@ -168,10 +168,22 @@ def gen(ctx):
     if len(seeds) < 3 or len(set(seeds)) != 1:
         raise RuntimeError("C12 gen: hash seed constants in hash.nelua not found or not all equal: %r" % seeds)
     d["HASH_SEED"] = int(seeds[0], 16)
-    order = ["HM_MAX_LOAD_FACTOR", "HM_GROW_RATE", "HM_INIT_CAPACITY", "VEC_INIT_CAP", "VEC_GROW_MUL", "SEQ_INIT_CAP",
+    # iterators.nelua impl_ipairs_next / ipairs: the step, the stop comparison, the one-indexing offset, the initial controls
+    it = vlib.repo_read("lib/iterators.nelua")
+    m = _scrape(it, r"local function impl_ipairs_next\(atype\)\s*k = k \+ (\d+)\s*if k (>=|>) \(#a \+ #\[atype\.is_oneindexing and (\d+) or (\d+)\]#\) then\s*"
+                    r"return false, 0, #\[atype\.subtype\]#\(\)\s*end\s*return true, k, a\[k\]", "impl_ipairs_next")
+    d["IP_STEP"], d["IP_STOP_GE"], d["IP_OFF_ONE"], d["IP_OFF_ZERO"] = int(m.group(1)), 1 if m.group(2) == ">=" else 0, int(m.group(3)), int(m.group(4))
+    m2 = _scrape(it, r"local function impl_mipairs_next\(atype\)\s*k = k \+ (\d+)\s*if k (>=|>) \(#a \+ #\[atype\.is_oneindexing and (\d+) or (\d+)\]#\) then", "impl_mipairs_next")
+    if (int(m2.group(1)), 1 if m2.group(2) == ">=" else 0, int(m2.group(3)), int(m2.group(4))) != (d["IP_STEP"], d["IP_STOP_GE"], d["IP_OFF_ONE"], d["IP_OFF_ZERO"]):
+        raise RuntimeError("C12 gen: impl_mipairs_next steps differently from impl_ipairs_next (the model uses one stepping function for both)")
+    inits = re.findall(r"return m?ipairs_next, a, #\[atype\.is_oneindexing and (-?\d+) or (-?\d+)\]#", it)
+    if len(inits) != 2 or len(set(inits)) != 1:
+        raise RuntimeError("C12 gen: initial controls of ipairs/mipairs not found or different: %r" % inits)
+    d["IP_INIT_ONE"], d["IP_INIT_ZERO"] = int(inits[0][0]), int(inits[0][1])
+    order = ["IP_STEP", "IP_STOP_GE", "IP_OFF_ONE", "IP_OFF_ZERO", "IP_INIT_ONE", "IP_INIT_ZERO", "HM_MAX_LOAD_FACTOR", "HM_GROW_RATE", "HM_INIT_CAPACITY", "VEC_INIT_CAP", "VEC_GROW_MUL", "SEQ_INIT_CAP",
              "SEQ_GROW_MUL", "SB_INIT_CAPACITY", "SB_GROW_MUL", "HASH_SEED"]
-    txt = ("(* GENERATED by checks/C12.py from /repo/lib/{hashmap,vector,sequence,stringbuilder,hash}.nelua - do not edit *)\n"
-           "From Coq Require Import ZArith.\n" + "".join("Definition %s : Z := %d%%Z.\n" % (k, d[k]) for k in order))
+    txt = ("(* GENERATED by checks/C12.py from /repo/lib/{hashmap,vector,sequence,stringbuilder,hash,iterators}.nelua - do not edit *)\n"
+           "From Coq Require Import ZArith.\n" + "".join("Definition %s : Z := (%d)%%Z.\n" % (k, d[k]) for k in order))
     vlib.write_if_changed(os.path.join(vlib.coq_dir(ID), "Gen.v"), txt)
     return d
 
@@ -210,6 +222,15 @@ def lhash_list(l):
     for t in l:
         h = (h * 31 + t % HM) % HM
     return h
+
+
+def ychk(pairs):
+    """count and position-sensitive checksum of the (index, token) pairs an iterator yields"""
+    h = 0
+    for i, t in pairs:
+        h = (h * 31 + i % HM) % HM
+        h = (h * 31 + t % HM) % HM
+    return "y%d#%d" % (len(pairs), h)
 
 
 def pmix(k, v):
@@ -287,6 +308,9 @@ class OVec:
             return ",".join(str(x) for x in l[i - 1:j])
         if op == 16: return "c2"        # a separate to-be-closed container: this one is untouched
         if op == 17: return "m%d" % len(l)      # a walk through mnext: visits every element once
+        if op == 18: return ychk([(i + base, x) for i, x in enumerate(l)])     # the pairs ipairs / pairs yields
+        if op == 19 and base == 0:              # $x = a through the mipairs references, where the predicate holds
+            self.l = [a if pred(b, c, e) else e for e in l]; return "-"
         raise KeyError(op)
 
     def contents(self):
@@ -337,6 +361,9 @@ class OList:
             self.l = []; return "-"
         if op == 12: return "c2"
         if op == 13: return "m%d" % len(l)
+        if op == 14: return ychk(list(enumerate(l)))
+        if op == 15:
+            self.l = [a if pred(b, 0, e) else e for e in l]; return "-"
         raise KeyError(op)
 
     def contents(self):
@@ -502,6 +529,9 @@ class OSpan:
             if not (0 <= a <= n and b <= n and a <= b): raise Violation("Index")
             if not (0 <= c < b - a): raise Violation("Index")
             return ("at", self.l[a + c])
+        if op == 5:       # ipairs over s:sub(a,b): (index, element) pairs flattened
+            if not (0 <= a <= n and b <= n and a <= b): raise Violation("Index")
+            return ("sub", [y for i, x in enumerate(self.l[a:b]) for y in (i, x)])
         if op == 4:       # s:sub(a,b):sub(c,#t)
             if not (0 <= a <= n and b <= n and a <= b): raise Violation("Index")
             if not (0 <= c <= b - a): raise Violation("Index")
@@ -604,8 +634,10 @@ def gen_history(rng, kind, typ, nsteps, maxsize, big=False):
                     emit(14, rng.choice([0, 1, 2, 3, 5, 8, min(maxsize, target)]), b0, 0 if b0 >= NZ else rng.choice([0, 1, 1, 3]))
                 elif r < 0.98 and kind == 2 and n >= 1:
                     emit(15, rng.choice([0] + ([1, 2] if n >= 3 else [])))
-                elif r < 0.985: emit(16, pick(), pick())
-                elif r < 0.995: emit(17)
+                elif r < 0.975: emit(16, pick(), pick())
+                elif r < 0.982: emit(17)
+                elif r < 0.990: emit(18)
+                elif r < 0.996 and kind == 1: emit(19, pick(), rng.choice([2, 3, 5, 7]), rng.randrange(0, 2))
                 else: emit(1, pick())
         elif kind == 3:
             if n >= maxsize: grow = False
@@ -621,8 +653,10 @@ def gen_history(rng, kind, typ, nsteps, maxsize, big=False):
                 elif r < 0.92: emit(9)
                 elif r < 0.94: emit(8)
                 elif r < 0.955: emit(11)
-                elif r < 0.96: emit(12, pick(), pick())
-                elif r < 0.975: emit(13)
+                elif r < 0.95: emit(12, pick(), pick())
+                elif r < 0.96: emit(13)
+                elif r < 0.97: emit(14)
+                elif r < 0.98: emit(15, pick(), rng.choice([2, 3, 5, 7]))
                 else: emit(2, pick())
         elif kind in (4, 5):
             if n >= maxsize: grow = False
@@ -843,9 +877,28 @@ def gen_hash_cases(rng, n):
     for _ in range(6):
         a = s64(rng.getrandbits(64)); b = rng.randrange(-99, 99)
         cases += [(17, a, b, 0), (18, a, b, 0), (19, a, b, 0), (21, a, b, 0), (22, a, b, 0)]
-    for _ in range(max(6, n // 20)):
-        cases.append((20, rng.randrange(0, 500), rng.choice([0, 1, 2, 31, 32, 33, 100, 1000]), 0))
+    for _ in range(max(12, n // 10)):
+        a = rng.randrange(0, 500)
+        cases.append((20, a, rng.choice([a, a, a + 251, a + 1, rng.randrange(0, 500), a + 502]), 0))
     return cases
+
+
+def str_case(a, b):
+    """two strings of the same length built from the byte seeds a and b: ==, equal hashes (required when ==; for this byte
+    hash also a consequence of it being a function of the bytes), and a string is never == to itself extended"""
+    n = (a ^ b) % 5
+    eq = sbbytes(a, n) == sbbytes(b, n)
+    return "%d %d 0" % (eq, eq or lhash_bytes(sbbytes(a, n)) == lhash_bytes(sbbytes(b, n)))
+
+
+def lhash_bytes(data):
+    """hash.long over the bytes (independent re-implementation): seed 0x9e3779b9 ^ len, step (len >> 5) + 1"""
+    M = (1 << 64) - 1
+    ln = len(data); seed = (0x9e3779b9 ^ ln) & M; step = (ln >> 5) + 1
+    while ln >= step:
+        seed ^= (((seed << 5) & M) + (seed >> 2) + data[ln - 1]) & M
+        ln -= step
+    return seed
 
 
 def py_feq32(a, b):
@@ -1093,7 +1146,8 @@ def correspond(ctx):
             a = rng.randrange(0, n + 1); b = rng.randrange(a, n + 1)
             if n and r < 0.3: ops.append((1, rng.randrange(0, n), 0, 0))
             elif r < 0.55: ops.append((2, a, b, 0))
-            elif r < 0.8 and b > a: ops.append((3, a, b, rng.randrange(0, b - a)))        # element of a sub-span
+            elif r < 0.7 and b > a: ops.append((3, a, b, rng.randrange(0, b - a)))        # element of a sub-span
+            elif r < 0.85: ops.append((5, a, b, 0))                                           # ipairs over a sub-span
             else: ops.append((4, a, b, rng.randrange(0, b - a + 1)))                         # sub-span of a sub-span
         hist.append({"kind": 7, "typ": 0, "n": n, "ops": ops, "dump": 0, "stream": "span"})
     groups = []
@@ -1246,7 +1300,7 @@ def correspond(ctx):
                 ctx.violation("iterators:select(2, a, b, c) returns only b", "oracle",
                               "select(i, ...) returns only its i-th argument instead of `all arguments after argument number index` (iterators.nelua's own documentation, and Lua): `local x, y = select(2, %d, %d, %d)` gives x = %d and y = nil" % (a, b, a ^ b, b),
                               detail={"program": "require 'iterators'\nlocal x, y = select(2, %d, %d, %d)\nprint(x, y)   -- prints '%d nil', Lua prints '%d %d'" % (a, b, a ^ b, b, b, a ^ b)})
-        elif (op == 17 and iline != "3" or op == 18 and iline != "%d %d" % (b, a ^ b) or op == 19 and iline != "%d" % (a ^ b) or op == 20 and iline != "1 1 0"
+        elif (op == 17 and iline != "3" or op == 18 and iline != "%d %d" % (b, a ^ b) or op == 19 and iline != "%d" % (a ^ b) or op == 20 and iline != str_case(a, b)
               or op == 21 and iline != "%d %d" % (b, a ^ b) or op == 22 and iline != "%d %d %d" % (a, b, a ^ b)):
             n_oracle += 1
             ctx.violation("iterators:select/string %d %d %d" % (op, a, b), "oracle", "select / string == case %d on (%d, %d) printed %s" % (op, a, b, iline))
@@ -1456,7 +1510,7 @@ def correspond(ctx):
 
 UNPROVED = [
     "model = code is not a theorem: lib/{vector,sequence,list,hashmap,span,stringbuilder,hash}.nelua are mirrored by hand in coq/C12/Model.v (one Gallina function per source function); the tie is the scraped constants (Gen.v) plus the step-by-step differential runs of the compiled library against the extracted model and the Python oracle, also under ASan/UBSan",
-    "lib/iterators.nelua is modelled as stateless iterator triples driven by a generic for loop (Model.v: for_in/for_do/ip_next, vec_ipairs, span_ipairs, seq_pairs, dl_pairs, hm_for_pairs, vec_mipairs_map, dl_mpairs_map, hm_for_mpairs); PROVED: ipairs over vector and span, pairs over list and hashmap visit exactly the abstract contents in order, the vector reference of mipairs aliases the element and the whole `$x = f($x)` loop is the element-wise update, the list/hashmap references of mnext are the node whose value next yields. ALSO PROVED since: pairs over sequence, the whole `$x = f($x)` loops through mpairs of list and hashmap (= hm_mapvals); `for` bodies that change the container's shape are outside the model. Exercised by the driver: ipairs/mipairs/pairs/mpairs, mnext walks over vector, sequence and list (reference identity checked), next over hashmap, select; mnext over hashmap (reference identity checked). select is a definitional model (C12_select_returns_suffix); its defect (one value returned) was repaired in /repo 6bf5a38 and the witness is replayed on every run",
+    "lib/iterators.nelua is modelled as stateless iterator triples driven by a generic for loop (Model.v: for_in/for_do/ip_next, vec_ipairs, span_ipairs, seq_pairs, dl_pairs, hm_for_pairs, vec_mipairs_map, dl_mpairs_map, hm_for_mpairs); PROVED: ipairs over vector and span, pairs over list and hashmap visit exactly the abstract contents in order, the vector reference of mipairs aliases the element and the whole `$x = f($x)` loop is the element-wise update, the list/hashmap references of mnext are the node whose value next yields. ALSO PROVED since: pairs over sequence, the whole `$x = f($x)` loops through mpairs of list and hashmap (= hm_mapvals); `for` bodies that change the container's shape are outside the model. Tie to the code: the stepping policy of impl_ipairs_next/impl_mipairs_next and the initial controls are scraped (Gen.v IP_*; the proofs use them), the (index, element) pairs yielded by ipairs (vector, sub-span) and pairs (sequence, list) are compared with the extracted iterator model's (count + position-sensitive checksum, full list for spans), the update loops through mipairs (vector) and mpairs (list, hashmap) run against the extracted model loops; for the hashmap the yielded bindings are compared through the dumps (node order) and the model statement only says `map snd l = hm_abs m` (controls uncharacterised). Also exercised: ipairs/mipairs/pairs/mpairs, mnext walks over vector, sequence and list (reference identity checked), next over hashmap, select; mnext over hashmap (reference identity checked). select is a definitional model (C12_select_returns_suffix); its defect (one value returned) was repaired in /repo 6bf5a38 and the witness is replayed on every run",
     "hashmap: the model runs with a hash on value tokens while the implementation hashes the real values; this is covered by C12_hashmap_is_flat_map / C12_hashmap_hash_independent_exact (every hash that respects == gives identical results, order, capacity and bucket count) TOGETHER WITH the coherence of the real hashes, which is proved only for integer, boolean, float64 (+-0, NaN), record{integer,number}, arrays/spans/pointers/unions as functions of the compared bytes; strings (== on the bytes, hash.long over the bytes) and float32 are covered by C12_hash_coherent_string_float32; other record shapes are not covered",
     "hashmap: the distinguished Overflow outcome (roundpow2 wrapped in usize; the implementation would continue with a zero-sized table) is excluded by theorem only below 2^50 bindings/requested counts (C12_hashmap_no_overflow_below_2p50); at or above that the model says Overflow and nothing is claimed about the code",
     "hashmap next(m,k)/__next is not an operation of the step relation hop, deliberately: it is the only hashmap operation with a failing precondition (absent key), and the step / history / flat-map theorems have the two-outcome shape `Overflow or the specification's result`; admitting it would add a third outcome to every one of those statements. It is covered on its own by C12_hashmap_next_is_flat_and_refines_map (equal to the hash-free flat next; absent key stopped; returned bindings are bindings of the map) and C12_hashmap_next_follows_iteration_order, so histories that interleave next with other operations are covered only operation by operation",
